@@ -13,8 +13,9 @@ particular the replay of pending write-ahead logs into the tables) is the abstra
 parameter `replay`; that it preserves the logical content is the subject of other
 properties.  The frame statements for `add_column`, `drop_last_column`, `reset_column`
 are therefore relative to `adminBase` = the directory left by that precheck open/close,
-for an arbitrary `replay`.  `clear_column` performs no such open (finding F8), its frame
-is relative to the directory as found.
+for an arbitrary `replay`; `clear_column` performs the same open/close with the stored
+options (`clearBase`).  The model follows the tree with the C17 fixes applied
+(fixes/fix-c17-*.diff), see the header of Pdb/Model/Meta.lean.
 -/
 import Pdb.Proofs.C17Dir
 
@@ -86,8 +87,8 @@ example : validate [⟨true, false, false, .Lz4, false, false, false, false⟩,
 
 /-- Opening (with or without create) a directory whose stored columns differ from the
 requested ones fails with the error of the comparison and changes no file: the only
-possible difference is that the `lock` file exists afterwards.  Opening a missing directory
-without create fails and creates nothing. -/
+possible difference is that the `lock` file exists afterwards.  Opening without create a
+directory that holds no metadata file, or a missing directory, fails and creates nothing. -/
 theorem C17_open_fails_clean {β : Type} (replay : Dir β → Dir β)
     (requested : List ColumnOptions) (salt : Option (List Nat)) (fresh : List Nat) :
     (∀ (d : Dir β) (m : Metadata) (create : Bool),
@@ -98,8 +99,10 @@ theorem C17_open_fails_clean {β : Type} (replay : Dir β → Dir β)
           fsGet (openDb replay (some d) requested salt create fresh).fs n = d n) ∧
         (d lockName ≠ none →
           (openDb replay (some d) requested salt create fresh).fs = some d)) ∧
+    (∀ d : Dir β, d metadataName = none →
+      openDb replay (some d) requested salt false fresh = ⟨.err .databaseNotFound, some d⟩) ∧
     openDb replay none requested salt false fresh = ⟨.err .databaseNotFound, none⟩ := by
-  refine ⟨?_, rfl⟩
+  refine ⟨?_, fun d hd => openDb_no_metadata replay d requested salt fresh hd, rfl⟩
   intro d m create hm hne
   cases hv : validate m.columns requested with
   | ok u => exact absurd ((validate_ok_iff _ _).mp (by cases u; exact hv)) hne
@@ -196,27 +199,22 @@ theorem C17_admin_affected_empty {β : Type} (replay : Dir β → Dir β) (fs : 
 
 /-- "Newly configured": after a successful call that changes the column list, loading the
 metadata file gives the new list (`requested ++ [new]`, `requested.dropLast`,
-`requested.set index new`), version `CURRENT_VERSION`, and as salt `options.salt` if it was
-set, the stored salt otherwise (see findings F13/F14 for these last two). -/
+`requested.set index new`) together with the salt and the format version that were stored
+before the call - whatever `options.salt` the caller passed. -/
 theorem C17_admin_metadata {β : Type} (replay : Dir β → Dir β) (fs : Option (Dir β))
     (requested : List ColumnOptions) (salt : Option (List Nat)) (op : AdminOp)
     (cols : List ColumnOptions)
-    (hsalt : ∀ s, salt = some s → s.length = 32 ∧ ∀ b ∈ s, b < 256)
     (hok : (applyAdmin replay fs requested salt op).result = .ok ())
     (hcols : op.newColumns requested = some cols) :
     ∃ d m, fs = some d ∧ loadMetadataFile (d metadataName) = .ok (some m) ∧
       m.columns = requested ∧
       loadMetadataFile (fsGet (applyAdmin replay fs requested salt op).fs metadataName) =
-        .ok (some ⟨salt.getD m.salt, Pdb.Gen.CURRENT_VERSION, cols⟩) := by
+        .ok (some ⟨m.salt, m.version, cols⟩) := by
   obtain ⟨d, m, hfs, hm, hmc, hfile⟩ := admin_metadata replay fs requested salt op hok hcols
   refine ⟨d, m, hfs, hm, hmc, ?_⟩
-  have hs : (salt.getD m.salt).length = 32 ∧ ∀ b ∈ salt.getD m.salt, b < 256 := by
-    cases salt with
-    | none => exact loadMetadataFile_salt hm
-    | some s => exact hsalt s rfl
   rw [hfile]
   simp only [loadMetadataFile]
-  rw [C17_meta_roundtrip_current _ _ hs]
+  rw [C17_meta_roundtrip _ _ _ (loadMetadataFile_version hm) (loadMetadataFile_salt hm)]
 
 -- non-vacuity: on the example directory `reset_column(1, None)` succeeds, the files of
 -- column 1 are gone, the file of column 0 and the log are untouched; `add_column` succeeds
@@ -232,16 +230,14 @@ example : (applyAdmin id (some exampleDir) exampleCols none (.reset 1 none)).res
   simp only [applyAdmin, resetColumn_ok id (some exampleDir) exampleCols none 1 none hp]
   refine ⟨by decide, ?_, ?_, ?_⟩ <;> (simp only [fsGet]; decide)
 
-example (new : ColumnOptions) : ∃ d m, some exampleDir = some d ∧
+example (new : ColumnOptions) (s : Option (List Nat)) : ∃ d m, some exampleDir = some d ∧
     loadMetadataFile (d metadataName) = .ok (some m) ∧ m.columns = exampleCols ∧
     loadMetadataFile
-        (fsGet (applyAdmin id (some exampleDir) exampleCols none (.add new)).fs metadataName) =
-      .ok (some ⟨(none : Option (List Nat)).getD m.salt, Pdb.Gen.CURRENT_VERSION,
-        exampleCols ++ [new]⟩) :=
-  C17_admin_metadata id (some exampleDir) exampleCols none (.add new) _
-    (fun _ h => by cases h)
-    (by simp only [applyAdmin, addColumn_ok id (some exampleDir) exampleCols none new
-      (example_precheck none)])
+        (fsGet (applyAdmin id (some exampleDir) exampleCols s (.add new)).fs metadataName) =
+      .ok (some ⟨m.salt, m.version, exampleCols ++ [new]⟩) :=
+  C17_admin_metadata id (some exampleDir) exampleCols s (.add new) _
+    (by simp only [applyAdmin, addColumn_ok id (some exampleDir) exampleCols s new
+      (example_precheck s)]; rfl)
     rfl
 
 #print axioms C17_codec
